@@ -90,9 +90,27 @@ CHECKS = {
          "catalogue, working on the recipe, not the file) computes, dependants included; the CLI validator is compared too.",
          "Documented co-reports are allowed rather than required; compound-unit convertibility is unspecified.",
          "DESIGN.md 4/C14"),
+ "C16": ("Hypothesis-generated data-frame programs (4 creation variants, append/overwrite by every index and name, refusal probes, reopen) vs. Python table model",
+         "Every read path (df[:], read_rows, read_columns in all variants, read_cell both forms, counts, names, types, "
+         "units) is compared with an ordered-columns + row-tuples model after every op and after reopen; refused writes "
+         "must leave the table unchanged.", "Cell values come from per-type boundary tables; (row, column) order for both "
+         "cell forms as documented by write_cell.", "DESIGN.md 4/C16"),
+ "C18": ("Hypothesis-generated recipes -> current file -> raw-h5py downgrade to old layouts -> upgrade with fault injection at every write-open",
+         "Synthesised old-format files (versions 1.0.0-1.2.0, old compound properties with per-value extras, alias range "
+         "dimensions, id kept/removed/invalid) must read back the recipe, upgrade to a writable file with the same walk, "
+         "stay 'old' when interrupted before any of the n conversion steps (every k in 1..n+1, error and kill style), "
+         "complete on re-run with the same result, and an up-to-date file must stay byte-identical.",
+         "Old layouts are synthesised from nixio's own old-format readers (no genuine pre-1.1.1 file available); "
+         "interruption inside a step is outside the statement.", "DESIGN.md 4/C18"),
+ "C19": ("Hypothesis-generated op programs under a harness-owned clock, per-op timestamp-delta oracle",
+         "The clock is replaced from outside; after every single op the (created_at, updated_at) of every entity is "
+         "compared with the state before: created_at fixed, auto-off freezes everything but force calls, must-update "
+         "attributes set exactly the target to the clock, other ops may only touch involved entities, forced seconds "
+         "read back exactly also after reopen; an attribute sweep covers the whole must-update table.",
+         "The check verifies first that the clock is under control (else exit 2).", "DESIGN.md 4/C19"),
 }
 PENDING = {}
-LEVELS = {"C12": "fault_enumeration"}
+LEVELS = {"C12": "fault_enumeration", "C18": "fault_enumeration"}
 
 def main():
     props = [json.loads(l) for l in open(os.path.join(HERE, "properties.jsonl"))]
